@@ -164,6 +164,25 @@ def run_target(rp, exit_code, present):
     return task['target_state']
 
 
+def run_master_bulk(rp, codes, cb_raises):
+    """one bulk of returned requests through the real Master._result_cb; the application's overloaded result_cb raises or
+    not (it chokes on a failed request's missing return value, say).  Returns [(uid, target state)] of what is handed on."""
+    from radical.pilot.raptor.master import Master
+    class AppMaster(Master):
+        def result_cb(self, tasks):
+            if cb_raises: raise ValueError('application callback failed')
+    m = object.__new__(AppMaster)
+    m._uid, m._log, m._prof = 'master.0000', rpload.NullLog(), Prof()
+    m._task_service_data = {}
+    handed = []
+    m.advance = lambda things, state=None, **kw: handed.extend((t['uid'], t.get('target_state'), state) for t in (things if isinstance(things, list) else [things]))
+    tasks = [{'uid': 'req.%04d' % k, 'exit_code': c, 'description': {}} for k, c in enumerate(codes)]
+    err = None
+    try: m._result_cb(tasks)
+    except Exception as e: err = type(e).__name__
+    return handed, err
+
+
 # -- (C) ---------------------------------------------------------------------------------------
 PAYLOADS = {}
 
@@ -770,6 +789,19 @@ def run(ctx):
             if timpl[-1] != want:
                 ctx.fail('master:target-state-differs', 'exit code %r -> %s' % (code if present else 'absent', timpl[-1]), {'kind': 'target', 'op': tops[-1]})
     common.compare(ctx, 'raptor', tops, timpl, what='real Master._result_cb exit code -> target state')
+    # whatever the application's result callback does with a bulk of returned requests - also when it raises - every request
+    # of the bulk is handed back, once, with the state its exit code says
+    for _ in range(ctx.n(40, 600)):
+        codes = [rng.choice([0, 0, 1, 3]) for _ in range(rng.randint(1, 4))]
+        for raises in (False, True):
+            handed, err = run_master_bulk(rp, codes, raises)
+            ctx.case({'master_bulk': [codes, raises]}, nontrivial=raises)
+            want = [('req.%04d' % k, 'DONE' if c == 0 else 'FAILED') for k, c in enumerate(codes)]
+            if err or [(u, t) for u, t, s_ in handed] != want or any(s_ != 'AGENT_STAGING_OUTPUT_PENDING' for u, t, s_ in handed):
+                ctx.fail('master:returned-requests-not-handed-back', 'bulk with exit codes %s, the application\'s result_cb %s: handed back %s%s'
+                         % (codes, 'raises' if raises else 'returns', handed, ' (%s escaped)' % err if err else ''),
+                         {'kind': 'master_bulk', 'codes': codes, 'raises': raises})
+    ctx.obligation('real Master._result_cb with an application result_cb that returns or raises: every returned request is handed back once', 'tie', True, '')
     # (E)
     fops, fimpl = [], []
     for ops_, n_ in [(list(o), n) for o, n in FWD_CORPUS] + [gen_fwd(rng) for _ in range(ctx.n(200, 6000))]:
@@ -949,6 +981,10 @@ def replay(ctx, data):
         if r['answers'] != 1: return False
         if i['request'] == 'returns': return r['exit'] == 0 and r['state'] == 'DONE' and r['val'] == 40 + i['n']
         return r['exit'] != 0 and r['state'] == 'FAILED' and r['exc'] and not r['held']
+    if i['kind'] == 'master_bulk':
+        handed, err = run_master_bulk(rp, i['codes'], i['raises'])
+        print(handed, err)
+        return not err and [(u, t) for u, t, s_ in handed] == [('req.%04d' % k, 'DONE' if c == 0 else 'FAILED') for k, c in enumerate(i['codes'])]
     if i['kind'] == 'target':
         e = i['op']['exit']
         got = [run_target(rp, e, True)] + ([run_target(rp, None, False)] if e is None else [])
